@@ -134,7 +134,10 @@ def build_machine(scn, lay):
                 ref = getattr(type(objs[p]), n)   # property object / function of the model class
         (conds if en["group"] == "cond" else unlesses).append(ref)
     ns["a"], ns["b"] = a, b
-    ns["go"] = a.to(b, cond=conds or None, unless=unlesses or None)
+    if scn.get("via_any"):
+        ns["go"] = b.from_.any(cond=conds or None, unless=unlesses or None)
+    else:
+        ns["go"] = a.to(b, cond=conds or None, unless=unlesses or None)
     ns["back"] = b.to(a)
     if scn.get("force_async"):
         async def on_enter_b(self):
